@@ -44,6 +44,42 @@ func runC04(c *Ctx) {
 	f := w.Facts(run)
 
 	// ---- R1 ----
+	// a thin gensign.Run around the function that owns the recover (gensign.go: resolveGensign): every call that can
+	// run foreign code (an interface method of a handler, a signer, an agent key) on the wrapper's tree is made inside
+	// that function's tree, and the wrapper returns its error
+	if wr := m.Wrapper; wr != nil {
+		c.Saw(wr)
+		for _, h := range w.Tree(wr) {
+			if h == run || w.inTree(run, h) {
+				continue
+			}
+			for _, call := range callsIn(h) {
+				if call.Common().IsInvoke() && w.InRepoType(call.Common().Value.Type()) {
+					c.Bad("R1.recover", "Run|"+shortName(call.Common().Method.FullName())+" inside the recovering function", w.Pos(call.Pos()), "a method of a handler / signer / agent key is called in "+shortFn(h)+", outside "+shortFn(run)+" which owns the recover: a panic there crashes the process")
+				}
+			}
+		}
+		site := m.WrapSite
+		idx := errorResultIndex(run)
+		var want ssa.Value = site
+		if run.Signature.Results().Len() > 1 {
+			want = extractOf(site, idx)
+		}
+		wf := w.factsOf(wr)
+		for _, r := range liveReturns(wr) {
+			if !ReachableAvoiding(site, nil)(r) || len(r.Results) == 0 {
+				continue
+			}
+			got := throughCell(strip(r.Results[len(r.Results)-1]))
+			ok := idx >= 0 && want != nil && got == want
+			if !ok && isNilConst(got) && want != nil {
+				if isNil, known := wf.KnownNil(r.Block(), want); known && isNil {
+					ok = true
+				}
+			}
+			c.Check(ok, "R1.recover", "Run|hands on the error of "+shortFn(run), w.Pos(r.Pos()), "returns that function's error (nil when it is nil)", "gensign.Run does not return the error of the function that does the run")
+		}
+	}
 	var deferIns *ssa.Defer
 	for _, call := range callsIn(run) {
 		if d, ok := call.(*ssa.Defer); ok {
@@ -133,7 +169,7 @@ func runC04(c *Ctx) {
 				if run.Recover != nil {
 					for _, r := range returnsOf(run) {
 						if r.Block() == run.Recover {
-							if ld, ok := r.Results[0].(*ssa.UnOp); ok && ld.X == ssa.Value(a) {
+							if ld, ok := r.Results[errorResultIndex(run)].(*ssa.UnOp); ok && ld.X == ssa.Value(a) {
 								okRet = true
 							}
 						}
@@ -242,7 +278,7 @@ func runC04(c *Ctx) {
 				continue
 			}
 			at := f.At(r.Block())
-			for _, lf := range w.LeavesErr(r.Results[0], r) {
+			for _, lf := range w.LeavesErr(r.Results[errorResultIndex(run)], r) {
 				all := copyFacts(lf.Facts)
 				for l := range at {
 					all[l] = true
@@ -274,7 +310,7 @@ func runC04(c *Ctx) {
 		}
 		nGen++
 		ok := true
-		for _, lf := range w.Leaves(r.Results[0], r) {
+		for _, lf := range w.Leaves(r.Results[errorResultIndex(run)], r) {
 			if k, isK := errKindOf(lf.Val); isK && k == m.Kinds["Panic"] {
 				continue
 			}
@@ -387,7 +423,7 @@ func runC04(c *Ctx) {
 			}
 			if n, k := f.KnownNil(r.Block(), ev); k && !n {
 				ok := true
-				for _, lf := range w.Leaves(r.Results[0], r) {
+				for _, lf := range w.Leaves(r.Results[errorResultIndex(run)], r) {
 					if !w.NonNil(lf.Val, lf.Facts) {
 						ok = false
 					}
